@@ -156,3 +156,124 @@ CLAIMS["C05"] = {
             "outside the LUT support (scipy), viscosity models and "
             "isoelastics are not decided.",
 }
+
+CLAIMS["C01"] = {
+    "technique": "CFG ordering rules for the append protocol; affine tiling "
+                 "recogniser for the chunk loop; guard-dominance rule for "
+                 "the fixed string width; table agreement writer/reader/"
+                 "copier; paired-counter rule",
+    "text": "Structural necessary conditions of write/read-back exactness "
+            "that hold for every split of the events over write calls: the "
+            "append offset is the stored length read before the resize and "
+            "every store starts there; chunk tiles plus remainder cover "
+            "[0,len) exactly once (decided symbolically); no line is stored "
+            "into a narrower fixed-width dataset; index = arange(n0+1, "
+            "n0+n+1) independent of caller data; group names, contour "
+            "naming, mask encoding, uint tables and text codec agree between "
+            "writer, readers and copier; __exit__ closes on every path and "
+            "re-derives the metadata; mode (append/replace/reset) table.",
+    "note": "Value equality for every dtype/NaN/inf/unicode value (h5py/"
+            "numpy conversions), behaviour across re-opened writers and "
+            "chunk-size configurations are not decided.",
+}
+CLAIMS["C20"] = {
+    "technique": "provenance (def-use) classification of every stored "
+                 "summary value; rational-function identity for a weighted "
+                 "mean; table agreement between four implementations; "
+                 "whole-tree who-may-store scan",
+    "text": "Every value stored under min/max/mean must be a NaN-ignoring "
+            "reduction of the whole dataset after the store, or a combination "
+            "whose weights are non-NaN counts; the name->reducer tables of "
+            "writer, copier, HDF5 reader and hierarchy child agree; the "
+            "reader prefers stored summaries and otherwise reduces its own "
+            "data; re-indexing wrappers never forward summaries; only "
+            "write_ndarray and rtdc_copy store summaries.",
+    "note": "Floating-point summation order and summaries already stored "
+            "in third-party input files (copied as they are) are not "
+            "decided.",
+}
+CLAIMS["C02"] = {
+    "technique": "symbolic evaluation of the export routines' syntax trees "
+                 "over model datasets (events as uninterpreted tokens, numpy "
+                 "indexing laws) for all mask classes and feature kinds; "
+                 "tiling check of the chunk generator",
+    "text": "The parsed export code is interpreted on abstract events "
+            "(nothing of dclab is executed): for every feature kind of the "
+            "writer's dispatch table, both source formats, filter on/off and "
+            "five mask classes (empty, full, single, straddling, longer than "
+            "the feature) the writer model must receive exactly the selected "
+            "events in order under the right name; the chunk generator tiles "
+            "the index list on both routes; text/FCS/AVI rows are the "
+            "selection iff `filtered`; metadata/logs/tables are carried over "
+            "under their flags.",
+    "note": "Events are uninterpreted: value conversion (dtype, mask "
+            "encoding), TSV precision and h5py behaviour are not decided. "
+            "The model of numpy indexing is part of the trusted base.",
+}
+CLAIMS["C09"] = {
+    "technique": "mutation-while-iterating rule (syntactic + CFG) over "
+                 "dclab/cli; symbolic evaluation of split()/join() on model "
+                 "inputs for enumerated (N, S) and feature-set cases; "
+                 "order-type evaluation of the sort key",
+    "text": "split: the parsed window arithmetic is evaluated for 15 (N, S, "
+            "empty-boundary) cases: parts partition the events in order, "
+            "each at most S, ceil(N/S) parts. join: offsets for time, frame "
+            "and index_online, pass-through features, logs/tables/config of "
+            "every source under distinct prefixes, feature intersection for "
+            "one/adjacent/several missing features, chronological sort key "
+            "incl. fractional seconds and ties. No container is mutated "
+            "while a live view of it is iterated.",
+    "note": "Numeric continuity of time/frame for arbitrary rates and "
+            "dates, and equality of joined split parts with the original "
+            "(needs execution) are not decided.",
+}
+CLAIMS["C12"] = {
+    "technique": "def-use taint analysis on the CFG (source: feature data of "
+                 "a dataset; sanitiser: subscript by filter.all; sinks: "
+                 "estimators, downsampler, statistics, text/FCS/AVI writers, "
+                 "returns) with guard recognition by boolean enumeration",
+    "text": "Entry points are enumerated from the code (every function of "
+            "core/statistics/export that reads feature data from a dataset "
+            "and hands it to a sink). No path may carry unfiltered feature "
+            "data into a sink unless a branch guarantees that filtering is "
+            "not wanted. Plus: axis pairing of scaling and positions, exp "
+            "back-transform exactly for log-scaled axes, nan/inf wrapper "
+            "semantics, quantile-level plumbing.",
+    "note": "That each estimator equals its reference (histogram spline, "
+            "Gaussian, product kernel), bin-width rules and quantile "
+            "semantics are numerical and not decided.",
+}
+CLAIMS["C14"] = {
+    "technique": "guard dominance on the CFG of basins_retrieve at every "
+                 "instantiation site; who-may-write scan of the isolation "
+                 "switch; structural termination argument (ignore set grows "
+                 "along every resolution path); table folding of Basin "
+                 "subclasses",
+    "text": "Isolation: every basin-class instantiation is dominated by the "
+            "local-basins switch or by a test that the class type equals the "
+            "declared type; only RTDCBase/RTDC_HDF5 write the switch and "
+            "only for format 'hdf5'; network formats never derive 'hdf5'. "
+            "Cycle cut: ignore test precedes instantiation, the set handed "
+            "down is own keys plus inherited, installed before the child "
+            "dataset evaluates its basins, only ever extended. Identifier "
+            "law (equality / prefix), verification before data, degradation "
+            "handler covers every basin access.",
+    "note": "Termination as a wall-clock fact, availability of remote "
+            "basins, and the DCOR server attaching keys are assumptions.",
+}
+CLAIMS["C07"] = {
+    "technique": "branch-order rule for the lookup precedence; every-route "
+                 "rule (all origin accesses go through the map); case "
+                 "evaluation of the map composition on export; loop-"
+                 "invariance rule for creating calls; sibling rule over all "
+                 "feature-wrapper classes (len vs shape)",
+    "text": "Innate > temporary > cached ancillary > internal > file > any "
+            "basin > computed; every access route of the mapped proxy "
+            "indexes the origin through the basin map; export composes maps "
+            "for {unfiltered, same, mapped, hierarchy child} x {filtered}; "
+            "each basin definition is copied exactly once; every wrapper "
+            "that re-indexes the first axis reports its own length in "
+            "shape/size (17 classes).",
+    "note": "Data equality for arbitrary maps and chains of exports is not "
+            "decided.",
+}
